@@ -406,6 +406,38 @@ func runC12(r *core.Run) {
 				}
 			}
 		}
+		// whites on the line x + y = 1, where Z is exactly zero (monochromatic reds beyond about 700 nm
+		// lie there; the Bradford blue response 0.0389 X - 0.0685 Y is still positive for y < 0.36)
+		for _, xy := range [][2]float32{{0.70, 0.30}, {0.72, 0.28}, {0.735, 0.265}, {0.68, 0.32}} {
+			zw := [3]float32{xy[0] / xy[1], 1, 0}
+			for _, o := range [][3]float32{{0.9642, 1, 0.8251}, {0.95047, 1, 1.08883}, {xy[1] / xy[0], 1, 0}} {
+				for _, pr := range [][2][3]float32{{zw, o}, {o, zw}} {
+					n++
+					nt++
+					if kind, msg := c12PairXYZ(pr[0], pr[1]); kind != "" {
+						r.Violate("pairxyz", kind+"/zero-Z", msg, c12Case{Kind: kind, XYZ: [][3]float32{pr[0], pr[1]}})
+					}
+				}
+			}
+		}
+		// 70 000 distinct whites in one process, each adapted to D50 and checked on its own white (a
+		// table of whites seen so far that outgrows a 16-bit index shows beyond the 65 536th)
+		{
+			d50 := ciexyz.Color{X: 0.9642, Y: 1, Z: 0.8251}
+			badAt := -1
+			for i := 0; i < 70000 && badAt < 0; i++ {
+				x := 0.25 + float32(i%265)*0.0009
+				y := 0.25 + float32(i/265)*0.0009
+				w := ciexyz.Color{X: x / y, Y: 1, Z: (1 - x - y) / y}
+				got := ciexyz.AdaptBetweenXYZWhitePoints(w, d50).Apply(w)
+				if !(math.Abs(float64(got.X-d50.X)) <= 2e-6 && math.Abs(float64(got.Y-d50.Y)) <= 2e-6 && math.Abs(float64(got.Z-d50.Z)) <= 2e-6) {
+					badAt = i
+					r.Violate("pairxyz", "white-xyz/many-whites", fmt.Sprintf("the %d-th distinct white of this process, %v, adapted to D50 maps itself to %v", i+1, w, got), c12Case{Kind: "white-xyz", XYZ: [][3]float32{{w.X, w.Y, w.Z}, {d50.X, d50.Y, d50.Z}}})
+				}
+			}
+			n += 70000
+			nt += 70000
+		}
 		// the library's own tabulated whites against the xyY-derived ones
 		for _, pr := range [][2]ciexyz.Color{{ciexyz.D65, ciexyz.ColorFromXYY(ciexyy.D65)}, {ciexyz.D50, ciexyz.ColorFromXYY(ciexyy.D50)}, {ciexyz.D50, ciexyz.D65}, {ciexyz.D65, ciexyz.D50}} {
 			a3, b3 := [3]float32{pr[0].X, pr[0].Y, pr[0].Z}, [3]float32{pr[1].X, pr[1].Y, pr[1].Z}
